@@ -322,7 +322,8 @@ func %s() {
 	n := vnd.Int64("n")
 	vnd.Assume(vnd.And(n >= 0, n <= 3))
 	S := &St{N: vnd.Int64("sn")}
-	arr := []int64{vnd.Int64("a0"), vnd.Int64("a1")}
+	arr := make([]int64, 2, 5) // spare capacity: only the 2 elements are visited
+	arr[0], arr[1] = vnd.Int64("a0"), vnd.Int64("a1")
 	mp := map[int64]int64{1: vnd.Int64("m1"), 5: vnd.Int64("m5")}
 	compare(%q, cs, n, S, arr, mp, func(cs *condSrc, n int64, S *St, arr []int64, mp map[int64]int64) (int64, bool, int64, int64) {
 		var x, y, i, j, k, p, q, u, mk int64
@@ -379,6 +380,9 @@ func genC02(tier string, seed int64) (*Family, error) {
 		{"forrange_continue_break", []*pstmt{{kind: "forrange", lv: "p", body: []*pstmt{o(1), {kind: "if", cond: c(2), body: []*pstmt{{kind: "continue"}}}, {kind: "if", cond: c(3), body: []*pstmt{{kind: "break"}}}, as("y", "+=", "p"), o(4)}}, o(5)}},
 		{"compound_ops", []*pstmt{as("x", "=", "3"), as("x", "*=", "3"), as("x", "-=", "2"), as("x", "/=", "2"), as("y", ":=", "x"), as("y", "+=", "y"), {kind: "sassign", op: "+=", rhs: "x"}, {kind: "sassign", op: "*=", rhs: "2"}, {kind: "sassign", op: "-=", rhs: "y"}}},
 		{"maprange", []*pstmt{{kind: "maprange", lv: "mk", v: "x"}, o(1)}},
+		{"injected_loop_var", []*pstmt{{kind: "for", lv: "S.N", bound: "n", body: []*pstmt{o(1), {kind: "if", cond: c(2), body: []*pstmt{{kind: "return", rhs: "x"}}}, as("x", "+=", "1")}}, o(3)}},
+		{"injected_loop_var_nested_return", []*pstmt{{kind: "for", lv: "S.N", bound: "3", body: []*pstmt{{kind: "forrange", lv: "p", body: []*pstmt{{kind: "if", cond: c(1), body: []*pstmt{{kind: "return", rhs: "y"}}}, as("y", "+=", "1")}}, o(2)}}, o(3)}},
+		{"injected_loop_var_break_continue", []*pstmt{{kind: "for", lv: "S.N", bound: "3", body: []*pstmt{{kind: "if", cond: c(1), body: []*pstmt{{kind: "continue"}}}, {kind: "if", cond: c(2), body: []*pstmt{{kind: "break"}}}, o(3)}}, o(4)}},
 		{"if_no_else", []*pstmt{{kind: "if", cond: c(1), body: []*pstmt{o(2)}}, {kind: "if", cond: pcond{kind: "cmp", l: "x", op: "==", r: "0"}, body: []*pstmt{o(3)}, hasEl: true, els: []*pstmt{o(4)}}, o(5)}},
 	}
 	for _, h := range hand {
